@@ -16,12 +16,14 @@ Lemma decodeTM_ok : forall o m, decodeTM o = Ok m ->
   tm_matrixHeight m = cval (member "matrixHeight" conv_uint o) 0 /\
   tm_cellSize m = cval (member "cellSize" conv_float o) dzero /\
   tm_scaleDenominator m = cval (member "scaleDenominator" conv_float o) dzero /\
-  tm_id m = cval (member "id" conv_str o) "".
+  tm_id m = cval (member "id" conv_str o) "" /\
+  tm_vmw m = copt (member "variableMatrixWidths" conv_vmws o) /\
+  uints_ok o = true.
 Proof.
-  intros o m H. unfold decodeTM in H.
+  intros o m H. apply decodeTM_inv in H. destruct H as [HU H]. unfold decodeTM_fields in H.
   match type of H with (if ?hs then _ else _) = _ => destruct hs end; [discriminate|].
   match type of H with (if tm_valid ?mm then _ else _) = _ => destruct (tm_valid mm) eqn:EV end; [|discriminate].
-  inversion H; subst. clear H. split; [exact EV|]. repeat split; reflexivity.
+  inversion H; subst. clear H. split; [exact EV|]. repeat split; try reflexivity. exact HU.
 Qed.
 
 (** truncation toward zero of a float strictly between -1 and 1 is 0 *)
@@ -182,7 +184,7 @@ Definition no_panic {A} (r : outcome A) : Prop := r <> Panic /\ r <> ErrorOrPani
 
 Lemma decodeTM_no_panic : forall o, no_panic (decodeTM o).
 Proof.
-  intros o. unfold decodeTM.
+  intros o. unfold decodeTM. destruct (uints_ok o); [|split; discriminate]. unfold decodeTM_fields.
   match goal with |- no_panic (if ?c then _ else _) => destruct c end; [split; discriminate|].
   match goal with |- no_panic (if ?c then _ else _) => destruct c end; split; discriminate.
 Qed.
@@ -287,7 +289,7 @@ Theorem origin_exact_lemma : forall o m, decodeTM o = Ok m ->
   exists a b, lookup_last "pointOfOrigin" o = Some (JArr [JNum a; JNum b]) /\ tm_origin m = Some (a, b).
 Proof.
   intros o m H. assert (W := decodeTM_wf o m H). destruct W as [_ [_ [_ [p [HO _]]]]].
-  unfold decodeTM in H.
+  apply decodeTM_inv in H. destruct H as [_ H]. unfold decodeTM_fields in H.
   match type of H with (if ?hs then _ else _) = _ => destruct hs end; [discriminate|].
   match type of H with (if tm_valid ?mm then _ else _) = _ => destruct (tm_valid mm) end; [|discriminate].
   inversion H; subst. clear H. cbn [tm_origin] in *. unfold copt, member in *.
@@ -296,23 +298,158 @@ Proof.
   apply point_exact_lemma in EC. subst v. exists (fst p), (snd p). split; [reflexivity|]. destruct p; reflexivity.
 Qed.
 
-(** ** corollaries stated in Properties/C16.v *)
-Theorem decode_encode_decode_small_lemma : forall j t, decodeTMS j = Ok t -> tms_small t ->
-  decodeTMS (encodeTMS t) = Ok (norm_tms t).
-Proof. intros j t H S. exact (decode_encode_decode_lemma j t H (tms_small_stable t S)). Qed.
+(** ** Since the repair of F6b: the unsigned members of every decoded value are whole numbers below 2^53 *)
+Lemma uint_number_ok_small : forall q, uint_number_ok q = true -> small (go_uint_of_float q).
+Proof.
+  intros q H. unfold uint_number_ok in H.
+  apply andb_true_iff in H. destruct H as [H H3]. apply andb_true_iff in H. destruct H as [H1 H2].
+  apply Qle_bool_iff in H1. apply Qltb_true in H3.
+  unfold go_uint_of_float. assert (A : Qle_bool 0 q = true) by (apply Qle_bool_iff; exact H1). rewrite A.
+  assert (P : 2 ^ 53 < 2 ^ 64) by (apply Z.pow_lt_mono_r; lia).
+  assert (B : Qle_bool (pow2Q 64) q = false).
+  { destruct (Qle_bool (pow2Q 64) q) eqn:X; [|reflexivity]. apply Qle_bool_iff in X. rewrite (pow2Q_nonneg 64) in X by lia.
+    exfalso. assert ((inject_Z (2 ^ 53) < inject_Z (2 ^ 64))%Q) by (rewrite <- Zlt_Qlt; exact P). lra. }
+  rewrite B. destruct q as [n d]. unfold Qle, Qlt in *. cbn [Qnum Qden inject_Z] in *.
+  assert (N0 : 0 <= n) by lia. rewrite Z.quot_div_nonneg by lia. unfold small. split.
+  - apply Z.div_pos; lia.
+  - apply Z.div_lt_upper_bound; lia.
+Qed.
 
-Theorem encode_stable_lemma : forall j t, decodeTMS j = Ok t -> tms_stable t ->
+Lemma small_0 : small 0.
+Proof. unfold small. split; [lia|]. apply Z.pow_pos_nonneg; lia. Qed.
+
+Lemma member_small : forall k o, uint_member_ok k o = true -> small (cval (member k conv_uint o) 0).
+Proof.
+  intros k o H. unfold uint_member_ok, member in *. destruct (lookup_last k o) as [v|]; [|apply small_0].
+  destruct v; cbn [conv_uint cval]; try apply small_0.
+  destruct (f64_dec d) as [q|]; [|apply small_0]. cbn [cval]. apply uint_number_ok_small. exact H.
+Qed.
+
+Lemma uint_member_small : forall k e c, uint_member_ok k e = true -> uint_member k e = Some c -> small c.
+Proof.
+  intros k e c H U. unfold uint_member_ok, uint_member in *. destruct (lookup_last k e) as [v|].
+  - destruct v; cbn [conv_uint] in U; try discriminate; try (inversion U; subst; apply small_0).
+    destruct (f64_dec d) as [q|]; [|discriminate]. inversion U; subst. apply uint_number_ok_small. exact H.
+  - inversion U; subst. apply small_0.
+Qed.
+
+Lemma vmws_small : forall l vs, forallb vmw_elem_ok l = true -> vmws_of l = Some vs -> Forall vmw_small vs.
+Proof.
+  induction l as [|j r IH]; intros vs H V.
+  - simpl in V. inversion V; subst. constructor.
+  - cbn [forallb] in H. apply andb_true_iff in H. destruct H as [Hj Hr]. cbn [vmws_of] in V.
+    destruct (vmw_of j) as [v|] eqn:EJ; [|discriminate]. destruct (vmws_of r) as [t|] eqn:ER; [|discriminate].
+    inversion V; subst. constructor; [|exact (IH t Hr eq_refl)].
+    unfold vmw_of in EJ. destruct j; try discriminate.
+    + inversion EJ; subst. unfold vmw_small. cbn. repeat split; apply small_0.
+    + unfold vmw_elem_ok in Hj. apply andb_true_iff in Hj. destruct Hj as [Hj K3]. apply andb_true_iff in Hj. destruct Hj as [K1 K2].
+      destruct (uint_member "coalesce" l) as [c|] eqn:E1; [|discriminate].
+      destruct (uint_member "minTileRow" l) as [a|] eqn:E2; [|discriminate].
+      destruct (uint_member "maxTileRow" l) as [b|] eqn:E3; [|discriminate].
+      inversion EJ; subst. unfold vmw_small. cbn [v_coalesce v_minTileRow v_maxTileRow].
+      split; [exact (uint_member_small _ _ _ K1 E1)|]. split; [exact (uint_member_small _ _ _ K2 E2)|exact (uint_member_small _ _ _ K3 E3)].
+Qed.
+
+Theorem decodeTM_small : forall o m, decodeTM o = Ok m -> tm_small m.
+Proof.
+  intros o m H. apply decodeTM_ok in H. destruct H as [_ [E1 [E2 [E3 [E4 [_ [_ [_ [EV HU]]]]]]]]].
+  unfold uints_ok in HU.
+  apply andb_true_iff in HU. destruct HU as [HU U5]. apply andb_true_iff in HU. destruct HU as [HU U4].
+  apply andb_true_iff in HU. destruct HU as [HU U3]. apply andb_true_iff in HU. destruct HU as [U1 U2].
+  unfold tm_small. rewrite E1, E2, E3, E4.
+  split; [apply member_small; exact U1|]. split; [apply member_small; exact U2|].
+  split; [apply member_small; exact U3|]. split; [apply member_small; exact U4|].
+  intros l Hl. rewrite EV in Hl. unfold copt, member in Hl.
+  destruct (lookup_last "variableMatrixWidths" o) as [v|]; [|discriminate].
+  unfold conv_vmws in Hl. destruct v; try discriminate.
+  destruct (vmws_of l0) as [t|] eqn:EW; [|discriminate]. inversion Hl; subst. eapply vmws_small; eauto.
+Qed.
+
+Lemma decodeTMs_small : forall l acc ms, Forall (fun e => tm_small (snd e)) acc ->
+  decodeTMs l acc = Ok ms -> Forall (fun e => tm_small (snd e)) ms.
+Proof.
+  induction l as [|x r IH]; intros acc ms HA H; simpl in H.
+  - inversion H; subst. exact HA.
+  - destruct x; try discriminate. destruct (decodeTM l) as [m| | |] eqn:ED; try discriminate. cbn [bind] in H.
+    destruct (parse_int (tm_id m)) as [k|]; [|discriminate].
+    eapply IH; [|exact H]. apply (insert_tm_forall tm_small); [exact HA|]. eapply decodeTM_small; eauto.
+Qed.
+
+Theorem decode_small : forall j t, decodeTMS j = Ok t -> tms_small t.
+Proof.
+  intros j t H. unfold decodeTMS in H. destruct j as [| | | | |o]; try discriminate.
+  destruct (foldO top_step o top_empty) as [a| | |]; try discriminate. cbn [bind] in H.
+  unfold decodeTop in H. destruct (ta_crs a); [|discriminate].
+  destruct (decodeCRS j); try discriminate. cbn [bind] in H.
+  destruct (ta_tms a) as [[| | | |l|]|]; try discriminate.
+  destruct (decodeTMs l []) as [ms| | |] eqn:EM; try discriminate. cbn [bind] in H.
+  match type of H with (if ?c then _ else _) = _ => destruct c end; [|discriminate].
+  inversion H; subst. unfold tms_small. cbn [t_matrices]. eapply decodeTMs_small; [|exact EM]. constructor.
+Qed.
+
+Theorem decode_stable : forall j t, decodeTMS j = Ok t -> tms_stable t.
+Proof. intros j t H. apply tms_small_stable. eapply decode_small; eauto. Qed.
+
+(** the round trip, unconditionally for every decoded value *)
+Theorem decode_encode_decode_full : forall j t, decodeTMS j = Ok t -> decodeTMS (encodeTMS t) = Ok (norm_tms t).
+Proof. intros j t H. exact (decode_encode_decode_lemma j t H (decode_stable j t H)). Qed.
+
+Theorem encode_stable_full : forall j t, decodeTMS j = Ok t ->
   exists t', decodeTMS (encodeTMS t) = Ok t' /\ encodeTMS t' = encodeTMS t.
 Proof.
-  intros j t H S. exists (norm_tms t). split; [exact (decode_encode_decode_lemma j t H S)|exact (encode_norm t)].
+  intros j t H. exists (norm_tms t). split; [exact (decode_encode_decode_full j t H)|exact (encode_norm t)].
 Qed.
 
+(** ** nonpositive_rejected, in full: a size that is not a positive whole number below 2^53 is rejected *)
+Theorem bad_size_rejected_tm : forall o k d q m,
+  In k size_keys -> lookup_last k o = Some (JNum d) -> f64_dec d = FNum q ->
+  ((q <= 0)%Q \/ uint_number_ok q = false) ->
+  decodeTM o <> Ok m.
+Proof.
+  intros o k d q m Hk HL HF HB HD.
+  destruct (uint_number_ok q) eqn:EU.
+  - (* whole and in range: then it is <= 0, i.e. 0 *)
+    destruct HB as [HB|HB]; [|discriminate].
+    unfold uint_number_ok in EU. apply andb_true_iff in EU. destruct EU as [EU _]. apply andb_true_iff in EU. destruct EU as [E0 _].
+    apply Qle_bool_iff in E0.
+    apply (zero_size_rejected_tm o k d q m Hk HL HF); [lra|lra|exact HD].
+  - apply decodeTM_ok in HD. destruct HD as [_ [_ [_ [_ [_ [_ [_ [_ [_ HU]]]]]]]]].
+    assert (M : uint_member_ok k o = false) by (unfold uint_member_ok; rewrite HL, HF; exact EU).
+    unfold uints_ok in HU.
+    apply andb_true_iff in HU. destruct HU as [HU _]. apply andb_true_iff in HU. destruct HU as [HU U4].
+    apply andb_true_iff in HU. destruct HU as [HU U3]. apply andb_true_iff in HU. destruct HU as [U1 U2].
+    cbn [size_keys In] in Hk. destruct Hk as [Hk|[Hk|[Hk|[Hk|[]]]]]; subst k; congruence.
+Qed.
+
+Theorem nonpositive_rejected_full : forall o l tmo k d q,
+  lookup_last "tileMatrices" o = Some (JArr l) -> In (JObj tmo) l ->
+  lookup_last k tmo = Some (JNum d) -> f64_dec d = FNum q ->
+  (In k size_keys /\ ((q <= 0)%Q \/ uint_number_ok q = false)) \/ ((k = "cellSize" \/ k = "scaleDenominator") /\ (q <= 0)%Q) ->
+  forall t, decodeTMS (JObj o) <> Ok t.
+Proof.
+  intros o l tmo k d q HL HI HK HF HC t HD.
+  destruct (decoded_matrices_lemma o t HD) as [l' [HL' HA]]. rewrite HL in HL'. inversion HL'; subst l'.
+  destruct (HA _ HI) as [tmo' [m [E Hm]]]. inversion E; subst tmo'.
+  destruct HC as [[Hk HB]|[Hk Hq]].
+  - exact (bad_size_rejected_tm tmo k d q m Hk HK HF HB Hm).
+  - exact (nonpositive_float_rejected_tm tmo k d q m Hk HK HF Hq Hm).
+Qed.
+
+(** what [uint_number_ok q = false] means: q is negative, or not whole, or at least 2^53 *)
+Lemma uint_number_ok_false : forall q, uint_number_ok q = false <->
+  ((q < 0)%Q \/ Qnum q mod Z.pos (Qden q) <> 0 \/ (inject_Z (2 ^ 53) <= q)%Q).
+Proof.
+  intros q. unfold uint_number_ok. split.
+  - intro H. destruct (Qle_bool 0 q) eqn:E1.
+    + destruct (Z.eqb_spec (Qnum q mod Z.pos (Qden q)) 0) as [E2|E2]; [|right; left; exact E2].
+      cbn [andb] in H. right; right. apply Qltb_false. exact H.
+    + left. apply Qnot_le_lt. intro X. apply Qle_bool_iff in X. congruence.
+  - intros [H|[H|H]].
+    + destruct (Qle_bool 0 q) eqn:E1; [|reflexivity]. apply Qle_bool_iff in E1. exfalso. eapply Qlt_not_le; eauto.
+    + destruct (Z.eqb_spec (Qnum q mod Z.pos (Qden q)) 0); [contradiction|]. rewrite andb_false_r. reflexivity.
+    + apply Qltb_false in H. rewrite H. apply andb_false_r.
+Qed.
+
+(** ** corollaries stated in Properties/C16.v *)
 Theorem normal_form_fixed_lemma : forall t, norm_tms (norm_tms t) = norm_tms t /\ encodeTMS (norm_tms t) = encodeTMS t.
 Proof. intros t. split; [exact (norm_idem t)|exact (encode_norm t)]. Qed.
-
-Theorem builtin_stable_thm : forall name doc, In (name, doc) gen_tms_documents ->
-  exists t, decodeTMS doc = Ok t /\ tms_stable t.
-Proof.
-  intros name doc HI. assert (H := builtin_stable_lemma). rewrite forallb_forall in H. specialize (H _ HI). cbn [snd] in H.
-  destruct (decodeTMS doc) as [t| | |]; try discriminate. exists t. split; [reflexivity|apply tms_stableb_spec; exact H].
-Qed.
